@@ -9,6 +9,7 @@ import ChibiVerif.Spec.LineSpec
   filemac <id> <off>            `__FILE__` likewise: → `file <display name>`
   synth <id> <off>              token synthesised (##, #, builtin) from the template token at off: → `synth line=<final line_no> fileno=<file_no> name=<file name>`
   addln <id> <off> <off> …      run add_line_numbers on these token starts (ascending) + the EOF token: → `addln <n> <n> … <n_eof>` | `crash null-tok`
+  addlnt <id> <loc> <loc> …     run add_line_numbers on these token locs (offsets into the TEXT, as the tokenizer found them, EOF included): → `addln …` | `crash null-tok`
   errat <id> <off>              error_at's recount at the image of off → `errat <n> shown=<hex of the source line verror_at prints>`
   table                         → `table <no>:<name> …`   (the `.file` directives)
   reset                         → `reset` -/
@@ -114,6 +115,16 @@ def lnStep (st : LnState) (ws : List String) : LnState × String :=
       | none => (st, "bad-id")
       | some e =>
         match addLineNumbers e.text (offs.map (finalPos e.bytes) ++ [e.text.length]) with
+        | .ok ls => (st, "addln " ++ " ".intercalate (ls.map toString))
+        | .error _ => (st, "crash null-tok")
+    | _, _ => (st, "bad-op")
+  | "addlnt" :: id :: locs =>
+    match id.toNat?, locs.mapM (·.toNat?) with
+    | some id, some locs =>
+      match findEnt st id with
+      | none => (st, "bad-id")
+      | some e =>
+        match addLineNumbers e.text locs with
         | .ok ls => (st, "addln " ++ " ".intercalate (ls.map toString))
         | .error _ => (st, "crash null-tok")
     | _, _ => (st, "bad-op")
